@@ -69,7 +69,14 @@ def strategy(tier, flags):
 
 
 def lang_checks(failures, name, regex, R, alphabet, words):
-    """regex: library Regex; R: reference NFA"""
+    """regex: library Regex; R: reference NFA.  accepts is asked first (it fills the regex's cache), then the
+    automaton is extracted, then accepts again"""
+    with guard(failures, name + ".accepts_first"):
+        for wd in words[:12]:
+            got = regex.accepts(list(wd))
+            if got != R.accepts(wd):
+                failures.append(fail(name + ".accepts", "wrong:%s" % got, wd))
+                break
     with guard(failures, name + ".to_epsilon_nfa"):
         M = ref_fa.from_lib(regex.to_epsilon_nfa())
         w = ref_fa.equivalent(R, M, set(alphabet) | M.alphabet)
